@@ -151,6 +151,11 @@ func run(c *vf.Ctx) {
 		p := rp{Packets: rep(70, P(0, K)), Prefill: 64, Readers: []ssh.VerifC35Reader{{Ext: 0, Buf: 1 << 20}}}
 		scs = append(scs, schedx.Scenario{Name: "recv window exhausted, then credit and data race (from mark)", Bound: 2, FromMark: true,
 			Body: func() any { return ssh.VerifC35Recv(p) }, Check: recvCheck, Outcome: recvOutcome})
+		// the application has half-closed its own direction (CloseWrite, EOF sent) and goes on
+		// reading: credit must still be returned for what it reads
+		p3 := rp{Packets: rep(70, P(0, K)), Prefill: 64, CloseWriteFirst: true, Readers: []ssh.VerifC35Reader{{Ext: 0, Buf: 1 << 20}}}
+		scs = append(scs, schedx.Scenario{Name: "recv after CloseWrite: window exhausted, then credit and data (from mark)", Bound: 1, FromMark: true,
+			Body: func() any { return ssh.VerifC35Recv(p3) }, Check: recvCheck, Outcome: recvOutcome})
 		p2 := rp{Packets: append(rep(64, P(1, K)), P(0, 5), P(1, K), P(1, K)), Prefill: 64, Readers: []ssh.VerifC35Reader{{Ext: 1, Buf: 3 * K}, {Ext: 0, Buf: 8}}}
 		scs = append(scs, schedx.Scenario{Name: "recv window exhausted by stderr, two readers (from mark)", Bound: 2, FromMark: true,
 			Body: func() any { return ssh.VerifC35Recv(p2) }, Check: recvCheck, Outcome: recvOutcome})
